@@ -27,7 +27,7 @@ ASSUMPTIONS = ["initial values inside the bounds", "nested cases use no variable
 REQUIRED = {"quick": {"evaluator_rows_checked": 20000, "fixed_entries_checked": 30000, "gradient_fixed_entries_checked": 2000, "result_vectors_checked": 5000,
                       "algorithm_vectors_checked": 3000, "nested_handoffs": 150, "nested_rows_after_handoff": 1000, "explicit_start_vector": 100, "__nontrivial__": 300},
             "thorough": {"evaluator_rows_checked": 600000, "fixed_entries_checked": 1000000, "gradient_fixed_entries_checked": 60000, "result_vectors_checked": 150000,
-                         "algorithm_vectors_checked": 100000, "nested_handoffs": 5000, "nested_rows_after_handoff": 30000, "explicit_start_vector": 1500, "__nontrivial__": 8000}}
+                         "algorithm_vectors_checked": 100000, "nested_handoffs": 5000, "nested_rows_after_handoff": 30000, "explicit_start_vector": 1500, "__nontrivial__": 4000}}
 BOUNDS = {"quick": {"Vmax": 4}, "thorough": {"Vmax": 5}}
 METHODS = ["scripted", "slsqp", "l-bfgs-b", "nelder-mead", "powell", "de", "de_vec"]
 
